@@ -32,7 +32,10 @@
 // of loads and layout mutations.  Part eight (observe.go) observes what a load
 // READS, not only what it serves: outside objects under inotify watches and an
 // outside named pipe, in a private layout per worker ("no part of the outside
-// file is read").
+// file is read").  Part nine (oneform.go) issues several loads from ONE form of
+// a loading file (map / fold / apply / funcall over a list of locations), the
+// earlier ones into other directories: every one resolves against the directory
+// of the file in which the call is written.
 package c20
 
 import (
@@ -466,6 +469,8 @@ type worker struct {
 	privState pstate
 	chain     []chainStep // chain part: the loads the link.lisp files still have to perform
 	clevel    int
+	mform     string // one-form part: the guard id of the form the multi.lisp files evaluate, and its locations
+	mlocs     []string
 	cbase     map[string]string   // chain part: marks of the same chain driven by LoadFile / load-file only
 	sbase     map[string]string   // scope part: outcome of a single top-level load, per (configuration, file, primitive, target)
 	hstates   map[string]struct{} // history part: canonical states seen by this worker
@@ -508,7 +513,7 @@ func newWorker(sb *sandbox) *worker {
 }
 
 func (w *worker) freshEnv() {
-	w.env = el.MustEnv(el.Opts{Builtins: []lisp.LBuiltinDef{
+	w.env = el.MustEnv(el.Opts{Builtins: append(w.oneFormBuiltins(), []lisp.LBuiltinDef{
 		bdef{"mark", lisp.Formals("s"), func(env *lisp.LEnv, args *lisp.LVal) *lisp.LVal {
 			w.marks = append(w.marks, args.Cells[0].Str)
 			return lisp.String(args.Cells[0].Str)
@@ -578,7 +583,7 @@ func (w *worker) freshEnv() {
 			}
 			return env.Errorf("c20: host load with entry %d", w.entry)
 		}},
-	}})
+	}...)})
 }
 
 // libFor returns a NEW library instance: the cases of parts one and two are
@@ -832,6 +837,9 @@ func runKase(sb *sandbox, cwd *node, k kase) (kind, class, expected, got string,
 	if k.Part == "mutation" {
 		return runMutationKase(k)
 	}
+	if k.Part == "oneform" {
+		return runOneFormKase(sb, cwd, k)
+	}
 	if k.Part == "observe" {
 		return "", "", "", "", fmt.Errorf("read-observation cases run in a private layout (replayObs)")
 	}
@@ -1069,7 +1077,7 @@ func run(r *core.Run) {
 	d.precheck(info)
 
 	// development aid: C20_PARTS=rfl,fs,history restricts the run (reported as capped)
-	parts := map[string]bool{"rfl": true, "fs": true, "history": true, "cwd": true, "scope": true, "chain": true, "mutation": true, "observe": true}
+	parts := map[string]bool{"rfl": true, "fs": true, "history": true, "cwd": true, "scope": true, "chain": true, "mutation": true, "observe": true, "oneform": true}
 	if s := os.Getenv("C20_PARTS"); s != "" {
 		parts = map[string]bool{}
 		for _, p := range strings.Split(s, ",") {
@@ -1219,6 +1227,11 @@ func run(r *core.Run) {
 	// ---- part six: chains of files loaded THROUGH the library, per entry point and spelling
 	if parts["chain"] && !r.Expired() && !r.Saturated() {
 		d.runChains(tot, info, &mu)
+	}
+
+	// ---- part nine: several loads issued from ONE form of a loading file (an earlier one into another directory)
+	if parts["oneform"] && !r.Expired() && !r.Saturated() {
+		d.runOneForms(tot, info, &mu)
 	}
 
 	// ---- part seven: layout mutations between loads on one library instance
